@@ -157,6 +157,20 @@ func checkC04(c *Ctx) {
 			}
 		}
 	}
+	if x.entry == nil && x.streamTbl != "" {
+		// the table lives in a type of its own: the entry point is the ServeHTTP from which its accesses are reachable
+		for _, e := range serverEntries(c) {
+			if e.Name() != "ServeHTTP" {
+				continue
+			}
+			reach := c.Reach(e)
+			for _, a := range x.accs {
+				if a.Field == x.streamTbl && reach[a.Fn] {
+					x.entry = e
+				}
+			}
+		}
+	}
 	if x.entry == nil || x.streamTbl == "" {
 		c.R.Break("anchor not found: ServeHTTP of the type owning the listening-stream table")
 		return
@@ -776,11 +790,9 @@ func (x *c04ctx) headerGuard() {
 			n++
 			construct := "Set(Mcp-Session-Id) in " + fname(fn)
 			guarded := false
-			for _, g := range flow.Guards(fn, call.Block()) {
-				if f, _, ok := ir.LoadedField(g.If.Cond); ok && !g.Branch {
-					if b, isB := f.Type.Underlying().(*types.Basic); isB && b.Kind() == types.Bool {
-						guarded = true
-					}
+			for _, ff := range boolFieldFacts(c, fn, call.Block(), 0) {
+				if !ff.Value {
+					guarded = true // on the false edge of a bool flag (directly, or established by a check-and-report helper)
 				}
 			}
 			c.R.Check(guarded, "R-header-guard", construct+": stateless guard", c.Pos(call.Pos()), "emitted only on the false edge of a stateless flag",
@@ -822,8 +834,34 @@ func (x *c04ctx) stateless(flag string) {
 			return found
 		}
 		// the registration may sit in a helper extracted from the handler: judge the (single) caller then
+		viaHelper := false
 		for lvl := 0; lvl < 3; lvl++ {
 			if ifi = findTest(fn); ifi != nil {
+				break
+			}
+			// the test may sit in a check-and-report helper whose ok-edge controls the registration
+			for _, ff := range boolFieldFacts(c, fn, site.Block(), 0) {
+				if ff.Field == flag && !ff.Value {
+					for _, g := range flow.Guards(fn, site.Block()) {
+						var hc *ssa.Call
+						switch y := g.If.Cond.(type) {
+						case *ssa.Call:
+							hc = y
+						case *ssa.Extract:
+							hc, _ = y.Tuple.(*ssa.Call)
+						}
+						if hc == nil {
+							continue
+						}
+						if sc := ir.StaticCallee(hc); sc != nil && c.P.IsLib(sc) {
+							if t := findTest(sc); t != nil {
+								ifi, viaHelper = t, true
+							}
+						}
+					}
+				}
+			}
+			if ifi != nil {
 				break
 			}
 			var sites []ssa.CallInstruction
@@ -842,12 +880,12 @@ func (x *c04ctx) stateless(flag string) {
 			c.R.Violate("R-stateless", construct, c.Pos(a.Pos), sprintf("%s registers a listening stream without testing the stateless flag %s", fname(fn), flag))
 			continue
 		}
-		esc := exitsFromBlockAvoiding(fn, ifi.Block().Succs[0], func(in ssa.Instruction) bool {
+		esc := exitsFromBlockAvoiding(ifi.Parent(), ifi.Block().Succs[0], func(in ssa.Instruction) bool {
 			s, ok := httpErrorStatus(in)
 			return ok && s == 405
 		})
 		c.R.Check(esc == nil, "R-stateless", construct+": 405", ipos(c, ifi), "stateless edge answers 405 on every path", "the stateless edge of the GET handler does not answer 405 on every path")
-		c.R.Check(flow.Dominates(ifi, site), "R-stateless", construct+": before registration", ipos(c, ifi), "the stateless test dominates the stream registration",
+		c.R.Check(viaHelper || flow.Dominates(ifi, site), "R-stateless", construct+": before registration", ipos(c, ifi), "the stateless test dominates the stream registration",
 			"the listening stream is registered on a path that has not passed the stateless test")
 	}
 	c.R.Min("R-stateless", 3)
